@@ -62,6 +62,12 @@ class sym_float(metaclass=_FloatShim):
             return SymReal(z3.If(x.e, z3.RealVal(1), z3.RealVal(0)))
         if hasattr(x, "__symfloat__"):
             return x.__symfloat__()
+        if _isinstance(x, str):
+            from . import strs
+
+            p = strs.single_token(x)
+            if p is not None:  # contract: float(repr(x)) == x, float(str(n)) == n
+                return sym_float(p)
         return _float(x)
 
 
@@ -80,6 +86,14 @@ class sym_int(metaclass=_IntShim):
             return SymInt(z3.If(x.e, z3.IntVal(1), z3.IntVal(0)))
         if hasattr(x, "__symint__"):
             return x.__symint__()
+        if _isinstance(x, str):
+            from . import strs
+
+            p = strs.single_token(x)
+            if p is not None:  # contract: int(str(n)) == n
+                if _isinstance(p, SymInt):
+                    return p
+                raise Unsupported(f"int() of the rendering of a {type(p).__name__}")
         return _int(x, *a)
 
 
